@@ -567,7 +567,8 @@ func (x *Exec) compileBinary(env *Env, e *SBinary) Value {
 
 func (x *Exec) sliceContentEq(env *Env, a, b TV) *Term {
 	elem := a.Ty.Underlying().(*types.Slice).Elem()
-	j := Atom("j!e", SInt)
+	x.counter++
+	j := Atom(fmt.Sprintf("j!e%d", x.counter), SInt)
 	la, lb := Sel("s-len", a.T), Sel("s-len", b.T)
 	ea := x.specHeapRead(env, elem, Sel("s-ref", a.T), Add(Sel("s-off", a.T), j))
 	eb := x.specHeapRead(env, elem, Sel("s-ref", b.T), Add(Sel("s-off", b.T), j))
@@ -577,7 +578,7 @@ func (x *Exec) sliceContentEq(env *Env, a, b TV) *Term {
 	} else {
 		eq = Eq(ea, eb)
 	}
-	return And(Eq(la, lb), &Term{Op: "forall", Sort: SBool, Bound: []*Term{j}, Args: []*Term{Implies(And(Le(IntLit(0), j), Lt(j, la)), eq)}})
+	return And(Eq(la, lb), MkQuant("forall", []*Term{j}, Implies(And(Le(IntLit(0), j), Lt(j, la)), eq)))
 }
 
 func (x *Exec) compileField(env *Env, e *SField) Value {
@@ -779,7 +780,7 @@ func (x *Exec) compileCall(env *Env, e *SCall) Value {
 			f, _ := new(big.Float).SetInt(v).Float64()
 			return TV{fpLit(f), tFloat}
 		}
-		x.declareFun("i2f", "(declare-fun i2f (Int) (_ FloatingPoint 11 53))")
+		x.declareI2F()
 		return TV{App("i2f", SF64, a.T), tFloat}
 	case "int":
 		a := argTV(0)
